@@ -16,7 +16,7 @@ func init() {
 	register(&Prop{
 		ID:       "C19",
 		Category: "model_checking",
-		Rule: "for every accelerated flate setting (4 KiB: levels 1,2,-1,3,6,9; 32 KiB: 1,2,-1): a block of length {4,8,258,1000} repeated at every distance in [W-3,W+3] and at W+2000, 2W-1, 2W, 2W+257, 65535..65537, 65536+W-1..+1, " +
+		Rule: "for every accelerated flate setting (4 KiB: levels 1,2,-1,3,6,9; 32 KiB: 1,2,-1): a block of length {4,8,258,1000} repeated at every distance in [W-3,W+3] ([W-40,W+40] and ten block lengths in thorough) and at W+2000, 2W-1, 2W, 2W+257, 65535..65537, 65536+W-1..+1, " +
 			"placed at offsets before/after the first buffer slide and after the 64 KiB position wrap, written whole, in two Writes cut inside the repeat, or with a Flush between original and repeat; periodic data with period W-1, W, W+1; " +
 			"oracle: the reference inflater's maximum match distance over the output; non-trivial = the output contains at least one back-reference",
 		Assumptions: []string{"the reference inflater reports the distance of every back-reference it decodes"},
@@ -28,19 +28,30 @@ func init() {
 
 func c19Harness(cfg *Cfg) func(x *mc.Exec) {
 	var kinds []WK
-	for _, l := range []int{1, 2, -1, 3, 6, 9} {
+	l4 := []int{1, 2, -1, 3, 6, 9}
+	if cfg.Thorough {
+		l4 = []int{1, 2, -1, 3, 4, 5, 6, 7, 8, 9}
+	}
+	for _, l := range l4 {
 		kinds = append(kinds, WK{Kind: "flate4k", Level: l})
 	}
 	for _, l := range []int{1, 2, -1} {
 		kinds = append(kinds, WK{Kind: "flate", Level: l})
 	}
 	blens := []int{4, 8, 258, 1000}
+	if cfg.Thorough {
+		blens = []int{4, 5, 8, 9, 16, 64, 258, 259, 1000, 5000}
+	}
 	return func(x *mc.Exec) {
 		k := kinds[x.Choose(len(kinds), "cfg")]
 		W := k.Window()
 		T := k.Fill()
 		dists := []int{}
-		for d := W - 3; d <= W+3; d++ {
+		span := 3
+		if cfg.Thorough {
+			span = 40
+		}
+		for d := W - span; d <= W+span; d++ {
 			dists = append(dists, d)
 		}
 		dists = append(dists, W+2000, 2*W-1, 2*W, 2*W+257, 65535, 65536, 65537, 65536+W-1, 65536+W, 65536+W+1)
